@@ -11,7 +11,6 @@ package main
 
 import (
 	"context"
-	"time"
 	"database/sql"
 	"encoding/json"
 	"errors"
@@ -20,6 +19,7 @@ import (
 	"path/filepath"
 	"sort"
 	"strings"
+	"time"
 
 	sqlite3 "github.com/mattn/go-sqlite3"
 	"gorm.io/driver/sqlite"
@@ -126,8 +126,8 @@ type Ev struct {
 // ctxErr is an injected error that also is a context error.
 type ctxErr struct{ base, ctx error }
 
-func (e *ctxErr) Error() string        { return e.base.Error() + ": " + e.ctx.Error() }
-func (e *ctxErr) Is(t error) bool       { return t == e.base || t == e.ctx }
+func (e *ctxErr) Error() string   { return e.base.Error() + ": " + e.ctx.Error() }
+func (e *ctxErr) Is(t error) bool { return t == e.base || t == e.ctx }
 
 func injected(base error, kind string) error {
 	switch kind {
@@ -163,19 +163,19 @@ func hookPoint(name string) error {
 	return nil
 }
 
-func (u *User) BeforeSave(tx *gorm.DB) error   { return hookPoint("User.BeforeSave") }
-func (u *User) BeforeCreate(tx *gorm.DB) error { return hookPoint("User.BeforeCreate") }
-func (u *User) AfterCreate(tx *gorm.DB) error  { return hookPoint("User.AfterCreate") }
-func (u *User) AfterSave(tx *gorm.DB) error    { return hookPoint("User.AfterSave") }
-func (u *User) BeforeUpdate(tx *gorm.DB) error { return hookPoint("User.BeforeUpdate") }
-func (u *User) AfterUpdate(tx *gorm.DB) error  { return hookPoint("User.AfterUpdate") }
-func (u *User) BeforeDelete(tx *gorm.DB) error { return hookPoint("User.BeforeDelete") }
-func (u *User) AfterDelete(tx *gorm.DB) error  { return hookPoint("User.AfterDelete") }
-func (p *Pet) BeforeCreate(tx *gorm.DB) error  { return hookPoint("Pet.BeforeCreate") }
-func (p *Pet) AfterSave(tx *gorm.DB) error     { return hookPoint("Pet.AfterSave") }
-func (p *Pet) BeforeDelete(tx *gorm.DB) error  { return hookPoint("Pet.BeforeDelete") }
+func (u *User) BeforeSave(tx *gorm.DB) error     { return hookPoint("User.BeforeSave") }
+func (u *User) BeforeCreate(tx *gorm.DB) error   { return hookPoint("User.BeforeCreate") }
+func (u *User) AfterCreate(tx *gorm.DB) error    { return hookPoint("User.AfterCreate") }
+func (u *User) AfterSave(tx *gorm.DB) error      { return hookPoint("User.AfterSave") }
+func (u *User) BeforeUpdate(tx *gorm.DB) error   { return hookPoint("User.BeforeUpdate") }
+func (u *User) AfterUpdate(tx *gorm.DB) error    { return hookPoint("User.AfterUpdate") }
+func (u *User) BeforeDelete(tx *gorm.DB) error   { return hookPoint("User.BeforeDelete") }
+func (u *User) AfterDelete(tx *gorm.DB) error    { return hookPoint("User.AfterDelete") }
+func (p *Pet) BeforeCreate(tx *gorm.DB) error    { return hookPoint("Pet.BeforeCreate") }
+func (p *Pet) AfterSave(tx *gorm.DB) error       { return hookPoint("Pet.AfterSave") }
+func (p *Pet) BeforeDelete(tx *gorm.DB) error    { return hookPoint("Pet.BeforeDelete") }
 func (c *Company) AfterCreate(tx *gorm.DB) error { return hookPoint("Company.AfterCreate") }
-func (t *Toy) BeforeSave(tx *gorm.DB) error    { return hookPoint("Toy.BeforeSave") }
+func (t *Toy) BeforeSave(tx *gorm.DB) error      { return hookPoint("Toy.BeforeSave") }
 
 // ---------------------------------------------------------------- inputs
 
@@ -211,33 +211,33 @@ type Op struct {
 	Users    []UserSpec `json:"users"`
 	Batch    int        `json:"batch,omitempty"`
 	FullSave bool       `json:"full_save,omitempty"`
-	Select   []string   `json:"select,omitempty"` // delete: association names, or "*" for clause.Associations
-	Target   uint       `json:"target,omitempty"` // updates: id of the row updated
+	Select   []string   `json:"select,omitempty"`  // delete: association names, or "*" for clause.Associations
+	Target   uint       `json:"target,omitempty"`  // updates: id of the row updated
 	Targets  []uint     `json:"targets,omitempty"` // updates_slice: ids of the rows of the slice model
 	Pet      PetSpec    `json:"pet,omitempty"`     // create_pet
 	Table    string     `json:"table,omitempty"`   // update_row: companies | profiles | badges
 	// options
-	Omit      []string `json:"omit,omitempty"`      // create/save/updates: Omit(...)
-	Sel       []string `json:"sel,omitempty"`       // create/save/updates: Select(...)
-	Returning bool     `json:"returning,omitempty"` // updates / delete: Clauses(clause.Returning{})
-	Unscoped  bool     `json:"unscoped,omitempty"`  // delete: Unscoped()
+	Omit      []string `json:"omit,omitempty"`         // create/save/updates: Omit(...)
+	Sel       []string `json:"sel,omitempty"`          // create/save/updates: Select(...)
+	Returning bool     `json:"returning,omitempty"`    // updates / delete: Clauses(clause.Returning{})
+	Unscoped  bool     `json:"unscoped,omitempty"`     // delete: Unscoped()
 	NoRet     bool     `json:"no_returning,omitempty"` // the dialector believes the database has no RETURNING (LastInsertID back-fill)
-	Share     bool     `json:"share,omitempty"`     // slices: the users that have a company share ONE *Company value
-	BatchSize int      `json:"batch_size,omitempty"` // Session{CreateBatchSize}
-	Scopes    bool     `json:"scopes,omitempty"`    // the call goes through db.Scopes(...)
-	FwdID     bool     `json:"fwd_id,omitempty"`    // with NoRet: LastInsertId is the FIRST row's key (MySQL style) instead of the last (SQLite style)
-	Form      int      `json:"form,omitempty"`      // update_row / create_map(s): alternative form of the same call
+	Share     bool     `json:"share,omitempty"`        // slices: the users that have a company share ONE *Company value
+	BatchSize int      `json:"batch_size,omitempty"`   // Session{CreateBatchSize}
+	Scopes    bool     `json:"scopes,omitempty"`       // the call goes through db.Scopes(...)
+	FwdID     bool     `json:"fwd_id,omitempty"`       // with NoRet: LastInsertId is the FIRST row's key (MySQL style) instead of the last (SQLite style)
+	Form      int      `json:"form,omitempty"`         // update_row / create_map(s): alternative form of the same call
 }
 
 type Input struct {
-	Seed   []UserSpec `json:"seed"` // database state before: these users are created first (not recorded)
+	Seed []UserSpec `json:"seed"` // database state before: these users are created first (not recorded)
 	// History of the *gorm.DB handle before the operation: calls made on the SAME handle whose
 	// results are discarded (tosql | dryrun | skipdef | session | ctx | prep). They send no write
 	// and must not change how the operation runs ("with default settings").
-	Pre    []string   `json:"pre,omitempty"`
-	Op     Op         `json:"op"`
-	DFault int        `json:"dfault"` // index of the failing driver operation (-1 none)
-	HFault int        `json:"hfault"` // index of the failing hook invocation (-1 none)
+	Pre    []string `json:"pre,omitempty"`
+	Op     Op       `json:"op"`
+	DFault int      `json:"dfault"` // index of the failing driver operation (-1 none)
+	HFault int      `json:"hfault"` // index of the failing hook invocation (-1 none)
 	// what the injected error IS besides the harness' sentinel: "" nothing | "canceled": it also is
 	// (errors.Is) context.Canceled | "deadline": context.DeadlineExceeded - a failure that came from
 	// some other, shorter-lived context while the operation's own context is alive
@@ -852,7 +852,7 @@ func (g *gen) input() Input {
 			u.ID = uint(r.Range(1, int(nu))) // existing row: UPDATE path
 		} else if r.Chance(1, 3) {
 			u.ID = 40 + uint(r.Intn(5)) // preset key of a missing row: UPDATE, then INSERT
-			if r.Chance(2, 3) {          // keep out of the known finding: no associations
+			if r.Chance(2, 3) {         // keep out of the known finding: no associations
 				u.Company, u.Profile, u.Pets, u.Langs, u.Toys = nil, nil, nil, nil, nil
 				u.Home, u.Badge, u.Notes = nil, nil, nil
 			}
